@@ -77,17 +77,19 @@ func init() {
 			outS, errS := sizesOf(p["out"]), sizesOf(p["err"])
 			outW, outAll := streamData(0x5a, outS)
 			errW, errAll := streamData(0xa5, errS)
-			x.Data["outAll"], x.Data["errAll"] = outAll, errAll
+			x.Put("outAll", outAll)
+			x.Put("errAll", errAll)
 			// the pipes that replace os.Stdout / os.Stderr inside a serving plugin (os.Pipe: 64 KiB)
 			pd := x.Domain("plugin")
 			outR, outPW := vnet.NewPipe(64*1024, pd)
 			errR, errPW := vnet.NewPipe(64*1024, pd)
 			so, se := &lockedBuf{}, &lockedBuf{}
-			x.Data["so"], x.Data["se"] = so, se
+			x.Put("so", so)
+			x.Put("se", se)
 			lc := newLive(x, liveOpts{proto: p["proto"], pStdout: outR, pStderr: errR, syncOut: so, syncErr: se})
-			x.Data["lc"] = lc
+			x.Put("lc", lc)
 			d := newDone(x)
-			x.Data["d"] = d
+			x.Put("d", d)
 			startWriters := func() {
 				x.Go("plugin", func() {
 					for i, w := range outW {
@@ -114,19 +116,25 @@ func init() {
 				x.Fail("ENGINE", "Start: %v", err)
 				return
 			}
-			if p["attach"] == "before" {
+			if strings.HasPrefix(p["attach"], "before") {
 				x.Release()
 				startWriters()
+				switch p["attach"] { // the host attaches its stdio streams long after the data was written
+				case "before6s":
+					x.Pause(6 * time.Second)
+				case "before4s":
+					x.Pause(4 * time.Second)
+				}
 			}
 			obj, err := lc.connect()
 			if err != nil {
 				if x.TimeDevs == 0 {
 					x.Fail("L", "connect failed: %v", err)
 				}
-				x.Data["skipped"] = true // timers were made to fire during the connection set-up: no stdio verdict
+				x.Put("skipped", true) // timers were made to fire during the connection set-up: no stdio verdict
 				return
 			}
-			if p["attach"] != "before" {
+			if !strings.HasPrefix(p["attach"], "before") {
 				x.Release()
 				startWriters()
 			}
@@ -134,7 +142,7 @@ func init() {
 			d.goIn("host", "rpc", func() {
 				defer close(rpcDone)
 				if err := lc.call(obj, false); err != nil {
-					x.Data["rpcerr"] = err
+					x.Put("rpcerr", err)
 				}
 			})
 			// wait (virtual time) until everything expected has arrived, or 10 s
@@ -143,13 +151,14 @@ func init() {
 			}
 			<-rpcDone
 			vs.Point("rpc-done")
-			x.Data["gotOut"], x.Data["gotErr"] = so.Bytes(), se.Bytes()
-			x.Data["completed"] = true
+			x.Put("gotOut", so.Bytes())
+			x.Put("gotErr", se.Bytes())
+			x.Put("completed", true)
 			lc.cl.Kill()
 		},
 		Check: func(x *vs.Exec, p explore.Params) {
 			desc := fmt.Sprintf("proto=%s stdout writes=[%s] stderr writes=[%s] attach=%s", p["proto"], p["out"], p["err"], p["attach"])
-			x.Data["nontrivial"] = p["out"] != "" || p["err"] != ""
+			x.Put("nontrivial", p["out"] != "" || p["err"] != "")
 			if x.Data["completed"] != true {
 				if len(x.Violations()) == 0 && x.Data["skipped"] != true {
 					x.Fail("L", "session never finished (blocked %v) [%s]", x.EndBlocked, desc)
@@ -222,6 +231,18 @@ func init() {
 						for _, e := range seqs {
 							out = append(out, explore.Params{"proto": proto, "out": o, "err": e, "attach": at})
 						}
+					}
+				}
+				late := []string{"1", "1024", "1025,1", "10000", "0,1", "40"}
+				for _, o := range late {
+					for _, e := range late {
+						// (a multiplexed plugin gives up when no host has connected 5 s after it began to serve —
+						// GRPCServerMuxer.session — so there the host can be at most that late)
+						at := "before6s"
+						if proto == "grpcmux" {
+							at = "before4s"
+						}
+						out = append(out, explore.Params{"proto": proto, "out": o, "err": e, "attach": at})
 					}
 				}
 			}
